@@ -520,6 +520,8 @@ def concatenate(arrays, axis=0, _no_check=False, align=False, **kwargs):
 
     if type(axis) is not int:
         axis = arrays[0].dims.index(axis)
+    elif axis < 0:
+        axis += arrays[0].ndim
     dim = arrays[0].dims[axis]
 
     # match dimensions by name, not by position
